@@ -77,7 +77,7 @@ def run(rep, tier, seed, rng):
     for r in full + sub:
         if r["tags"] & {"crash", "rc", "predicted-panic", "ninja", "configured", "nobuilds"}:
             ndis += 1
-            rep.violation("model and implementation disagree: " + "; ".join(r["dis"])[:400], gen_common.replay_data(r), found_input=False)
+            rep.violation("model and implementation disagree: " + "; ".join(r["dis"])[:400], gen_common.replay_data(r), found_input=("crash" in r["tags"]))
     for (f, c), i, r in zip(cases, owner, sub):
         fr = full[i]
         if r["impl"]["rc"] != 0 or r["impl_raw"]["ninja"] is None:
